@@ -305,8 +305,8 @@ def _sh_comb(tier):
     if tier == "quick":
         return product_pins(na=[1], nb=[1, 3], a0=[0], b0=[1]) + \
             product_pins(na=[3], nb=[1, 3], a0=[0, 4], b0=[1], a1=list(range(8)))
-    return product_pins(na=[1, 2], nb=[1, 2, 3], a0=[0, 1, 4], b0=[0, 1, 4]) + \
-        product_pins(na=[3], nb=[1, 2, 3], a0=[0, 1, 4], b0=[0, 1, 4], a1=list(range(8)))
+    return product_pins(na=[1], nb=[1, 3], a0=[0], b0=[0, 1]) + \
+        product_pins(na=[3], nb=[1, 3], a0=[0, 4], b0=[0, 1], a1=list(range(8)))
 
 
 FUNCS = ["Regex.__init__", "RegexReader.*", "_pre_process_regex", "_get_regex_componants", "to_node",
@@ -339,6 +339,6 @@ CONDS = [
          {"quick": "pairs of well-formed regexes of 1 or 3 tokens from {a,b,|,*,(,),.,$}: union, concatenate, "
                    "kleene_star and the composites (r1 r2)*, r1* r2, (r1|r2)*, r1 r2|r1, each judged in all "
                    "representations (automaton, accepts, to_cfg, str round trip)",
-          "thorough": "1-3 tokens each; also | and + operators"},
+          "thorough": "second operand starting with a or b; also | and + operators"},
          FUNCS, RULE),
 ]
